@@ -129,6 +129,10 @@ var cur atomic.Pointer[ctl]
 
 func init() {
 	h := func(point string) {
+		if m := curMulti.Load(); m != nil {
+			m.at(point)
+			return
+		}
 		c := cur.Load()
 		if c == nil {
 			return
